@@ -384,6 +384,45 @@ class Gen:
                     self.alu()
         self.p.tags.add('stld-' + kind)
 
+    def evict_pattern(self):
+        """touch more lines than any cache holds (64-byte lines: > 16 for the 1 KB caches, > 32 of
+        128 bytes for the 4 KB L3), dirtying some, then come back to the early ones"""
+        r = self.rng
+        ms = self.p.memsize
+        nlines = ms // 64
+        first = r.sample(range(nlines), min(nlines, r.randint(18, 40)))
+        a = ADDR[0]
+        written = {}
+        for ln in first:
+            if not self.room(6):
+                break
+            off = r.choice([0, 0, 4, 20, 60, 1, 33])
+            addr = ln * 64 + off
+            self.p.ins('li', a, imm=addr - addr % 4)
+            self.addr_val[a] = addr - addr % 4
+            c = r.random()
+            if c < 0.5:
+                self.p.ins('sw', rs1=a, rs2=self.src(), imm=0)
+                written[ln] = True
+            elif c < 0.6:
+                self.p.ins('sb', rs1=a, rs2=self.src(), imm=addr % 4)
+                written[ln] = True
+            else:
+                self.p.ins(r.choice(['lw', 'lb']), self.dst(), a, imm=0)
+        back = [ln for ln in first[:12] if r.random() < 0.7]
+        for ln in back:
+            if not self.room(4):
+                break
+            self.p.ins('li', a, imm=ln * 64)
+            self.addr_val[a] = ln * 64
+            if r.random() < 0.7:
+                self.p.ins(r.choice(['lw', 'lb']), self.dst(), a, imm=r.choice([0, 4, 20, 60]) if True else 0)
+            else:
+                self.p.ins('sw', rs1=a, rs2=self.src(), imm=0)
+        self.p.tags.add('evict-%d-lines' % len(first))
+        if written:
+            self.p.tags.add('dirty-eviction')
+
     def tail(self):
         """long-latency work directly before the exit"""
         r = self.rng
@@ -412,7 +451,7 @@ class Gen:
         nmem = r.randint(0, min(64, p.memsize))
         for _ in range(nmem):
             p.mem[r.randrange(p.memsize)] = r.randint(-128, 127)
-        if prof in ('mem', 'stld', 'tail', 'mixed', 'ldonly', 'ldslow', 'disj', 'touched') and r.random() < 0.7:
+        if prof in ('mem', 'stld', 'tail', 'mixed', 'ldonly', 'ldslow', 'disj', 'touched', 'evict') and r.random() < 0.7:
             # dense image
             for a in range(0, p.memsize, r.choice([1, 3, 4])):
                 p.mem[a] = r.randint(-128, 127)
@@ -423,6 +462,7 @@ class Gen:
             'ldonly': dict(alu=3, load=5, branch=1, loop=1, setaddr=1),
             'ldslow': dict(alu=3, load=2, slowbranch=3, branch=1),
             'disj': dict(alu=3, load=3, store=3, branch=1),
+            'evict': dict(alu=3, load=1, store=1),
             'touched': dict(alu=3, load=4, store=4, branch=1),
             'hazard': dict(alu=10, load=1),
             'waw': dict(alu=10),
@@ -446,7 +486,7 @@ class Gen:
                 self.addr_val[reg] = b
                 self.p.ins('lw', self.dst(), reg, imm=0)
             p.tags.add('touched-lines-%d' % nl)
-        if prof in ('mem', 'stld', 'mixed', 'tail', 'ldonly', 'ldslow'):
+        if prof in ('mem', 'stld', 'mixed', 'tail', 'ldonly', 'ldslow', 'evict'):
             self.set_addr()
         while self.n() < target and self.room(6):
             k = r.choices(kinds, wts)[0]
@@ -468,6 +508,8 @@ class Gen:
                 self.loop()
             elif k == 'stld':
                 self.stld_pair()
+        if prof == 'evict':
+            self.evict_pattern()
         if prof == 'tail':
             self.tail()
         if prof == 'err':
@@ -497,6 +539,9 @@ def gen_program(rng, profile, memsize=None, max_len=None):
             memsize = rng.choice([512, 1024, 2048])
         if profile == 'touched':
             memsize = rng.choice([128, 256, 512, 1024])
+        if profile == 'evict':
+            memsize = rng.choice([2048, 4096, 8192])
+            max_len = rng.choice([120, 180, 240])
         if profile in ('mem',) and rng.random() < 0.3:
             memsize = rng.choice([4096, 8192])
     if memsize < 16 and profile not in ('alu', 'hazard', 'waw', 'branch', 'err', 'loops', 'ssa'):
